@@ -22,6 +22,7 @@ var Registry = map[string]Entry{}
 func register(id string, e Entry) { Registry[id] = e }
 
 func init() {
+	register("C16", Entry{New: func(map[string]bool) kit.Engine { return C16() }, Quick: Budget{400000, 40}, Thorough: Budget{60000000, 1500}})
 	register("C15", Entry{New: func(map[string]bool) kit.Engine { return C15() }, Quick: Budget{60000, 40}, Thorough: Budget{20000000, 1500}})
 	register("C10", Entry{New: func(map[string]bool) kit.Engine { return C10() }, Quick: Budget{300000, 40}, Thorough: Budget{40000000, 1500}})
 	register("C20", Entry{New: C20, Quick: Budget{300000, 50}, Thorough: Budget{40000000, 1500}})
